@@ -330,3 +330,30 @@ Definition ex_session : list sop := [SNew [1; 2; 3; 4]%N; SPatch 1 [9; 9]%N; SRe
 Example ex_session_msgs :
   session_msgs [] ex_session = [[1; 2; 3; 4]; [1; 9; 9; 4]; [1; 9; 9; 4]; [1; 9]; [5]; [1; 9; 9; 7]]%N.
 Proof. vm_compute. reflexivity. Qed.
+
+(* ---- saveKeys / loadKeys TRANSLATED FROM THE SOURCE (Check/GoLiteKeyFile.v, regenerated on every run) --------------
+   Where the secrets go, read off the translated code's calls with their arguments: in EVERY world (each collaborator
+   failing or not) the raw private key reaches gcm.Seal and zeroBytes only, the passphrase deriveKeyArgon2 and
+   zeroBytes only, the derived key aes.NewCipher and zeroBytes only; what is written is the JSON of {sealed key, nonce,
+   PUBLIC key, salt}, once, with mode 0600 (go_saveKeys). *)
+From Verif Require Check.GoLiteKeyFile.
+Theorem C19_translated_secrets_confined_full : forall w : GoLiteKeyFile.sworld, GoLiteKeyFile.secrets_confined w = true.
+Proof. exact GoLiteKeyFile.secrets_are_confined. Qed.
+Print Assumptions C19_translated_secrets_confined_full.
+
+(* loading: the signer's keys are set only after the file parsed, the nonce had the right length, the ciphertext
+   OPENED under the key derived from the passphrase and the file's salt, both raw keys parsed and the public key
+   belongs to the private key; in every other world an error comes back and no key is set ... *)
+Theorem C19_translated_keys_set_only_after_every_check_full : forall w : GoLiteKeyFile.lworld,
+  GoLiteKeyFile.lo_priv (GoLiteKeyFile.load_expect w) <> Some GoLite.VNil ->
+  GoLiteKeyFile.l_read w = true /\ GoLiteKeyFile.l_parse w = true /\ GoLiteKeyFile.l_nonce_len w = true /\
+  GoLiteKeyFile.l_open w = true /\ GoLiteKeyFile.l_privparse w = true /\ GoLiteKeyFile.l_pubparse w = true /\
+  GoLiteKeyFile.l_match w = true /\ GoLiteKeyFile.lo_result (GoLiteKeyFile.load_expect w) = [GoLite.VNil].
+Proof. exact GoLiteKeyFile.keys_set_only_after_every_check. Qed.
+Print Assumptions C19_translated_keys_set_only_after_every_check_full.
+
+(* ... and loading never writes, creates, renames or removes a file *)
+Theorem C19_translated_load_never_writes_full : forall (w : GoLiteKeyFile.lworld) (e : GoLite.gval),
+  In e (GoLiteKeyFile.lo_calls (GoLiteKeyFile.load_expect w)) -> GoLiteKeyFile.writes_a_file e = false.
+Proof. exact GoLiteKeyFile.load_never_writes. Qed.
+Print Assumptions C19_translated_load_never_writes_full.
